@@ -620,7 +620,10 @@ def r9_converters_guarded(a, tier):
                 par = pm[id(cur)]
                 if isinstance(par, ast.Try) and any(cur is s_ or any(x is cur for x in ast.walk(s_)) for s_ in par.body):
                     for h in par.handlers:
-                        names = ['BaseException'] if h.type is None else [norm(t) for t in (h.type.elts if isinstance(h.type, ast.Tuple) else [h.type])]
+                        htype = h.type
+                        if isinstance(htype, ast.Name) and htype.id in m.module.assigns and isinstance(m.module.assigns[htype.id], ast.Tuple):
+                            htype = m.module.assigns[htype.id]  # `except _PATTERN_ERRORS:` - a module-level tuple of exception classes
+                        names = ['BaseException'] if htype is None else [norm(t) for t in (htype.elts if isinstance(htype, ast.Tuple) else [htype])]
                         raises_tatsu = any(isinstance(x, ast.Raise) and x.exc is not None and
                                            any('tatsu.exceptions' in c for c in [ex.raise_token(m, x.exc, None, {}).bound]) for x in ast.walk(h))
                         for e_ in need:
